@@ -47,6 +47,30 @@ Theorem C01_refines_stack : forall c a0 p h p' o,
   exists a', ans_run c a h = (a', o) /\ push_all c p' a0 = Some a' /\ pend_ok c p'.
 Proof. intros c a0 p h p' o Hc. exact (ans_refines_stack c Hc a0 p h p' o). Qed.
 
+(* batch / reverse / fallible-iterator forms equal the per-symbol loop, including the position
+   at which they stop and the symbols that stay encoded *)
+Theorem C01_batch_ok : forall c l a a',
+  ans_encode_all c l a = Some a' -> ans_encode_batch c l a = (a', None).
+Proof. intros c l a a'. exact (ans_encode_batch_from_ok c l 0 a a'). Qed.
+
+Theorem C01_batch_reverse_ok : forall c l a a',
+  ans_encode_all c (rev l) a = Some a' -> ans_encode_batch_reverse c l a = (a', None).
+Proof. intros c l a a'. exact (ans_encode_batch_from_ok c (rev l) 0 a a'). Qed.
+
+Theorem C01_batch_stops_at_error : forall c l1 a a1 m s l2,
+  ans_encode_all c l1 a = Some a1 -> ans_encode_sym c m s a1 = None ->
+  ans_encode_batch c (l1 ++ (m, s) :: l2) a = (a1, Some (length l1)).
+Proof. intros c l1 a a1 m s l2. exact (ans_encode_batch_from_err c l1 0 a a1 m s l2). Qed.
+
+Theorem C01_try_batch_ok : forall c l a a',
+  ans_encode_all c l a = Some a' -> ans_try_encode c (map Some l) a = (a', TryOk).
+Proof. intros c l a a'. exact (ans_try_encode_from_ok c l 0 a a'). Qed.
+
+Theorem C01_try_batch_stops : forall c l1 a a1 l2,
+  ans_encode_all c l1 a = Some a1 ->
+  ans_try_encode c (map Some l1 ++ None :: l2) a = (a1, TryInvalidModel (length l1)).
+Proof. intros c l1 a a1 l2. exact (ans_try_encode_from_invalid c l1 0 a a1 l2). Qed.
+
 (* the hypothesis [wf_model] is met by every explicit table that tiles [0,2^P) *)
 Theorem C01_tables_are_models : forall P t, wf_table P t -> wf_model (table_model P t).
 Proof. exact table_model_wf. Qed.
@@ -89,3 +113,8 @@ Print Assumptions C01_start_imported.
 Print Assumptions C01_stack_history.
 Print Assumptions C01_refines_stack.
 Print Assumptions C01_tables_are_models.
+Print Assumptions C01_batch_ok.
+Print Assumptions C01_batch_reverse_ok.
+Print Assumptions C01_batch_stops_at_error.
+Print Assumptions C01_try_batch_ok.
+Print Assumptions C01_try_batch_stops.
